@@ -1868,31 +1868,46 @@ class EAStoryMove(ElementAction):
         A list of :class:`~mosromgr.moselements.Story` objects being moved
         """
         return [
-            Story(story_tag)
-            for story_tag in self.base_tag.findall('element_source')
+            Story(source, id=story_id.text)
+            for source in self.base_tag.findall('element_source')
+            for story_id in source.findall('storyID')
         ]
 
     def merge(self, ro: RunningOrder) -> RunningOrder:
         """
         Merge into the :class:`RunningOrder` object provided.
         """
-        if self.story is None:
-            target_story_index = len(ro.base_tag)
-        else:
+        # check every reference before changing anything
+        target_story = None
+        if self.story is not None:
             target_story, target_story_index = find_child(parent=ro.base_tag, child_tag='story', id=self.story.id)
             if target_story is None:
                 raise MosMergeError(
                     f"{self.__class__.__name__} error in {self.message_id} - target story not found"
                 )
 
+        stories = []
         for source_story in self.stories:
             story, source_index = find_child(parent=ro.base_tag, child_tag='story', id=source_story.id)
             if story is None:
                 raise MosMergeError(
                     f"{self.__class__.__name__} error in {self.message_id} - source story not found"
                 )
+            if story is target_story or story in stories:
+                raise MosMergeError(
+                    f"{self.__class__.__name__} error in {self.message_id} - story listed more than once"
+                )
+            stories.append(story)
+
+        for story in stories:
             remove_node(parent=ro.base_tag, node=story)
-            insert_node(parent=ro.base_tag, node=story, index=target_story_index)
+        if target_story is None:
+            target_story_index = len(ro.base_tag)
+        else:
+            target_story_index = list(ro.base_tag).index(target_story)
+        # the moved stories go in front of the target, in the order given
+        for i, story in enumerate(stories, start=target_story_index):
+            insert_node(parent=ro.base_tag, node=story, index=i)
         return ro
 
     def inspect(self):
